@@ -17,6 +17,7 @@ import (
 	"github.com/Cloud-Foundations/golib/pkg/log/testlogger"
 	"github.com/Cloud-Foundations/keymaster/lib/instrumentedwriter"
 	"github.com/Cloud-Foundations/keymaster/lib/pwauth/htpassword"
+	"github.com/duo-labs/webauthn/webauthn"
 	"golang.org/x/time/rate"
 )
 
@@ -142,6 +143,7 @@ func vfNewState(t *testing.T) (*RuntimeState, func()) {
 	if err := state.loadTemplates(); err != nil {
 		t.Fatal(err)
 	}
+	vfConfigureWebAuthn(t, state)
 	cleanup := func() {
 		select {
 		case state.dbDone <- struct{}{}:
@@ -160,4 +162,21 @@ func vfAuthCookie(t *testing.T, state *RuntimeState, user string, level int) *ht
 		t.Fatal(err)
 	}
 	return &http.Cookie{Name: authCookieName, Value: val}
+}
+
+// vfConfigureWebAuthn gives the state the WebAuthn relying party the config loader would build
+// (without it every admitted WebAuthn request dereferences nil — a harness artefact, not a finding).
+func vfConfigureWebAuthn(t *testing.T, state *RuntimeState) {
+	if state.webAuthn != nil {
+		return
+	}
+	var err error
+	state.webAuthn, err = webauthn.New(&webauthn.Config{
+		RPDisplayName: "Keymaster Server",
+		RPID:          "keymaster.example.com",
+		RPOrigin:      "https://keymaster.example.com",
+	})
+	if err != nil {
+		t.Fatal(err)
+	}
 }
